@@ -11,6 +11,7 @@ var stdAssumptions = []string{
 // expectedReach lists, per property, the reach counters that a healthy run of
 // the check should see above zero; those at zero are reported as blind spots.
 var expectedReach = map[string][]string{
+	"C20": {"scenario.vole.Mul", "vole.multi-chunk", "vole.repeated-mul-on-one-instance"},
 	"C15": {"sender-aborted-on-tampering", "honest-accepted", "accepted-with-intact-correlation(unselected column or padding row or response-only)"},
 	"C06": {"kind.CO", "kind.RSA-1024", "kind.COT", "kind.COT-malicious", "kind.ROT", "kind.ROT-malicious", "batch.n%8!=0", "batch.n%64!=0,n>64", "batch.multi-chunk", "batch.repeated-on-one-instance"},
 	"C16": {"outcome.garbler-error", "outcome.session-stalled", "outcome.garbler-correct-despite-corruption"},
@@ -20,6 +21,12 @@ var expectedReach = map[string][]string{
 }
 
 var props = map[string]propCfg{
+	"C20": {
+		Quick: 20 * time.Second, Thorough: 8 * time.Minute, Level: "exploration",
+		Rule:        "one case = one seeded two-task session over p2p.Conn on a simulated pipe: vole.NewSender/NewReceiver + 1..3 Mul calls (vector lengths from {1,2,7..9,63..65,511..513,1023..1025,2000,random<=2000}; moduli P-256 prime, 2^255-19, 2^256-189, P-224 prime, 2, 3, 65537, random odd <=256 bits; elements 0, 1, p-1, random), or 1..6 bmr.FxSend/FxReceive or FxkSend/FxkReceive over CO/COT/COT-malicious for all (a,b) and random/zero strings; capacity, fragmentation, latency and schedule from the tape; oracle = math/big reference; non-trivial = more than 2 task switches; distinct = distinct SHA-256 of the event log",
+		Components:  map[string]string{"vole.Sender/Receiver.Mul, bmr.Fx*/Fxk*, ot.IKNP/CO/COT, p2p.Conn": "real code", "IKNP base OTs": "real Chou-Orlandi in 1/3 of vole runs, stub otherwise", "transport": "simulated pipe"},
+		Assumptions: stdAssumptions,
+	},
 	"C15": {
 		Quick: 20 * time.Second, Thorough: 8 * time.Minute, Level: "fault_enumeration",
 		Rule:        "one case = one IKNP instance (sender task, receiver task, message-level ot.IO) serving 8..47 malicious-mode trials, each with a batch size from {1,2,7,8,9,15..17,63..65,127..129,511..513,600,1024,1025}, a choice vector and a tampering plan from the fault stream: honest; one bit (column,row) of the payload extension matrix; one bit of the 256-row check batch; 2..8 simultaneous flips; alteration of seed2/x/t0/t1 alone or with a flip; oracle: honest never aborts, acceptance implies recv = sent xor choice*Delta for the receiver's original choices; non-trivial = every case; distinct = distinct SHA-256 of the event log",
